@@ -593,9 +593,82 @@ def instance_trait_cells(ctx):
                         break
 
 
+def listener_object_cells(ctx):
+    """the specially named methods of a *listener object* attached with
+    add_trait_listener (optionally under a prefix): each one is a registered
+    handler like any other - once per change, never after removal"""
+    from traits.api import Event, HasTraits, Int
+
+    class Src(HasTraits):
+        n = Int
+        go = Event
+
+    for prefix in ("", "src"):
+        pre = (prefix + "_") if prefix else "_"
+        for hist in (("n",), ("go",), ("n", "go"), ("go", "go", "n"),
+                     ("n", "n-same", "go")):
+            case = {"cell": "listener-object", "prefix": prefix,
+                    "history": list(hist)}
+            ctx.case(case)
+            ctx.ev()
+            calls = []
+
+            def mk(tag, name):
+                def m(self):
+                    calls.append(tag)
+                m.__name__ = name       # (methods are re-fetched by name)
+                return m
+            L = type("L", (), {
+                pre + nm: mk(tag, pre + nm) for nm, tag in (
+                    ("n_changed", "n_changed"), ("go_fired", "go_fired"),
+                    ("go_changed", "go_changed"),
+                    ("anytrait_changed", "any"))})
+            lst = L()
+            s = Src()
+            if prefix:
+                s.add_trait_listener(lst, prefix)
+            else:
+                s.add_trait_listener(lst)
+            val = 0
+            for ev in hist:
+                calls.clear()
+                ctx.tr()
+                if ev == "n":
+                    val += 1
+                    s.n = val
+                    want = {"n_changed": 1, "any": 1}
+                elif ev == "n-same":
+                    s.n = val
+                    want = {}
+                else:
+                    s.go = True
+                    want = {"go_fired": 1, "go_changed": 1, "any": 1}
+                got = {t: calls.count(t) for t in set(calls)}
+                if got != want:
+                    ctx.violation(
+                        "C02:listener-object:%s" % ev.split("-")[0],
+                        "listener object attached with add_trait_listener"
+                        "(%r): event %r called %r, expected %r"
+                        % (prefix, ev, got, want), **case)
+                    break
+                ctx.outcome("exactly-once" if want else "silent-no-change")
+            else:
+                if prefix:
+                    s.remove_trait_listener(lst, prefix)
+                else:
+                    s.remove_trait_listener(lst)
+                calls.clear()
+                s.n = val + 5
+                s.go = True
+                if calls:
+                    ctx.violation("C02:listener-object:after-removal",
+                                  "after remove_trait_listener the methods "
+                                  "%r were still called" % (calls,), **case)
+
+
 def shards(tier):
     out = [{"cell": "wildcard"}, {"cell": "instance-trait"},
-           {"cell": "magic-observe"}]
+           {"cell": "magic-observe"}, {"cell": "listener-object"}]
     for kind, mode in configs():
         for grp in (0, 1, 2):
             out.append({"kind": kind, "mode": mode, "group": grp})
@@ -624,7 +697,8 @@ def canon(rig):
 def run_shard(ctx, shard, tier):
     if shard.get("cell"):
         {"wildcard": wildcard_cells, "instance-trait": instance_trait_cells,
-         "magic-observe": magic_named_observe_cells}[shard["cell"]](ctx)
+         "magic-observe": magic_named_observe_cells,
+         "listener-object": listener_object_cells}[shard["cell"]](ctx)
         ctx.depth_completed = 3
         return
     raisers = ([None] + HANDLERS)[shard["group"]::3]
@@ -696,7 +770,8 @@ def replay(rec):
     c = rec["case"]
     if c.get("cell"):
         {"wildcard": wildcard_cells, "instance-trait": instance_trait_cells,
-         "magic-observe": magic_named_observe_cells}[c["cell"]](ctx)
+         "magic-observe": magic_named_observe_cells,
+         "listener-object": listener_object_cells}[c["cell"]](ctx)
         for v in ctx.violations.values():
             print("  violation:", v["sig"], v["msg"])
         return not ctx.violations
